@@ -135,7 +135,6 @@ def run_helper(case):
             ev = {"typ": "vars", "num": case["num"], "exclude": [ord(c) for c in case["exclude"]], "vars": [], "outcome": "ok", "should_raise": case["num"] > 25 or (not case["common"] and case["num"] > 24 - len(set(case["exclude"]) & set("abcdfghjklmnopqrstuvwxyz")))}
             try:
                 ex = list(case["exclude"])
-                ex = (ex, tuple(ex), set(ex), dict.fromkeys(ex).keys())[(case["num"] + len(ex) + case.get("seed", 0)) % 4]        # any container of letters
                 vs = P.get_rand_vars(case["num"], ex, case["common"]) if case["num"] % 2 else P.get_rand_vars(num_vars=case["num"], exclude_vars=ex, common_variables=case["common"])
                 ev["vars"] = [ord(v[0]) if isinstance(v, str) and v else 0 for v in vs]
             except BaseException as e:  # noqa
